@@ -489,9 +489,12 @@ class ServiceDiscoveryProtocol(SOMEIPDatagramProtocol):
         asyncio.get_event_loop().call_soon(self.announcer.connection_lost, exc)
 
     def reboot_detected(self, addr: _T_SOCKADDR) -> None:
-        asyncio.get_event_loop().call_soon(self.subscriber.reboot_detected, addr)
+        # must be applied before the entries of the message that revealed the reboot
+        # and after everything received earlier: Subscribe entries are handled
+        # synchronously, Offer entries via call_soon (see sd_message_received)
+        self.subscriber.reboot_detected(addr)
         asyncio.get_event_loop().call_soon(self.discovery.reboot_detected, addr)
-        asyncio.get_event_loop().call_soon(self.announcer.reboot_detected, addr)
+        self.announcer.reboot_detected(addr)
 
     def sd_message_received(
         self, sdhdr: someip.header.SOMEIPSDHeader, addr: _T_SOCKADDR, multicast: bool
@@ -800,11 +803,14 @@ class TimedStore(typing.Generic[KT]):
         callback(entry, address)
 
     def stop_all_for_address(self, address: _T_SOCKADDR) -> None:
-        for entry, (callback, handle) in self.store[address].items():
+        stopping_entries = list(self.store[address].items())
+        self.store[address].clear()
+        for entry, (callback, handle) in stopping_entries:
             if handle:
                 handle.cancel()
-            asyncio.get_event_loop().call_soon(callback, entry, address)
-        self.store[address].clear()
+            # notify immediately (see stop()): a deferred notification could be
+            # overtaken by a new offer/subscribe for the same entry
+            callback(entry, address)
 
     def stop_all(self) -> None:
         for addr in self.store.keys():
